@@ -92,9 +92,10 @@ def splitext (n : Name) : Name × Name := splitextRev n.reverse []
 def isPyExt (e : Name) : Bool := e = extPyi || e = extPy
 
 /-- names skipped by find_sources_in_dir / find_modules_recursive -/
+def skipList : List Name := ["__pycache__".toList, "site-packages".toList, "node_modules".toList]
+
 def skipName (n : Name) : Bool :=
-  n = "__pycache__".toList || n = "site-packages".toList || n = "node_modules".toList ||
-  (match n with | '.' :: _ => true | _ => false)
+  skipList.contains n || (match n with | '.' :: _ => true | _ => false)
 
 /-- lexicographic `<` on code points (Python `str.__lt__`) -/
 def nameLt : Name → Name → Bool
